@@ -211,7 +211,7 @@ def make_unitary(rng, fam, n):
     raise KeyError(fam)
 
 
-def make_error_model(lw, rng):
+def make_error_model(lw, rng, allow_loss=True):
     itf = lw.interferometers
     d = itf.dists
     em = itf.ErrorModel()
@@ -227,7 +227,9 @@ def make_error_model(lw, rng):
     else:
         em.bs_reflectivity = d.Constant(float(rng.uniform(0.3, 0.7)))
         shape.append("const")
-    r = rng.random()
+    # (every lossy component adds a mode to U_full: on a wide mesh - thousands of components - compiling the mapped circuit
+    #  would take minutes and run the shard into the watchdog, so loss is left out there)
+    r = rng.random() if allow_loss else 1.0
     if r < 0.4:
         em.loss = d.Gaussian(0.05, 0.05, 0.0, None if rng.random() < 0.0 else 1.0)
         shape.append("loss_gauss")
@@ -287,7 +289,7 @@ def run(ctx):
         noisy = bool(rng.random() < 0.4)
         seed = pick_seed(rng) if rng.random() < 0.8 else None
         if noisy:
-            em, shape = make_error_model(lw, rng)
+            em, shape = make_error_model(lw, rng, allow_loss=n <= 13)
             ctx.bucket("noisy_error_model")
         else:
             em, shape = None, ("default",)
